@@ -34,6 +34,7 @@ pub fn all() -> Vec<Prop> {
         Prop { id: "C15", gen: gen_c15, monitor: mon::c15, bound_quick: Some(3), bound_thorough: None, max_execs_quick: 20_000, max_execs_thorough: 400_000, features: "f_deadlock" },
         Prop { id: "C20", gen: gen_c20, monitor: mon::c20, bound_quick: Some(2), bound_thorough: Some(3), max_execs_quick: 5_000, max_execs_thorough: 100_000, features: "f_metrics" },
         Prop { id: "C18", gen: gen_c18, monitor: mon::none, bound_quick: Some(2), bound_thorough: Some(2), max_execs_quick: 3_000, max_execs_thorough: 3_000, features: "" },
+        Prop { id: "C12", gen: gen_c12, monitor: mon::c12, bound_quick: Some(2), bound_thorough: Some(3), max_execs_quick: 10_000, max_execs_thorough: 200_000, features: "f_deadlock,f_metrics,f_testutils,f_tracing" },
         Prop { id: "C13", gen: gen_c13, monitor: mon::c13, bound_quick: Some(2), bound_thorough: Some(3), max_execs_quick: 20_000, max_execs_thorough: 400_000, features: "f_testutils" },
     ]
 }
@@ -1612,7 +1613,7 @@ pub fn project_c16(tr: &[Ev]) -> Vec<String> {
     let mut hidden_ops: std::collections::HashSet<u32> = Default::default();
     for e in tr {
         match &e.k {
-            EvK::Slot { .. } | EvK::Log { .. } | EvK::Quiet { .. } | EvK::Graph { .. } | EvK::DlCount { .. } | EvK::Harvest { .. } => {}
+            EvK::Slot { .. } | EvK::Log { .. } | EvK::Quiet { .. } | EvK::Graph { .. } | EvK::DlCount { .. } | EvK::Harvest { .. } | EvK::LockPoisoned { .. } => {}
             EvK::OpStart { op, k, target, msg, slot, .. } => {
                 // handle bookkeeping, and the upgrade that is part of an erasing prelude (slots >= 30)
                 if matches!(k, OpK::Erase | OpK::CloneBoxed | OpK::CloneH | OpK::DropH | OpK::Downgrade) || (*k == OpK::Upgrade && *slot >= 30) {
@@ -1960,6 +1961,124 @@ fn gen_c18(thorough: bool) -> Vec<Scenario> {
         s.tags.retain(|t| t != "quiet" && t != "probe");
         s.tags.push("feature_neutral".into());
         s.name = format!("c18-{i}:{}", s.name);
+    }
+    out
+}
+
+// ------------------------------------------------------------------ C12: a failing actor fails alone
+
+fn gen_c12(thorough: bool) -> Vec<Scenario> {
+    let mut out = Vec::new();
+    let mut n = 0;
+    #[derive(Clone, Copy, Debug, PartialEq)]
+    enum Crash {
+        StartPanic,
+        StartErr,
+        HandlerPanic(u32), // which of V's messages panics: 1 = d1, 2 = mv1 (sent by P's handler), 3 = d3
+        RunPanic(usize),
+        RunErr(usize),
+        StopPanic,
+        StopErr,
+        SelfAskDeadlock,
+        CycleWithPeer,
+    }
+    let mut crashes = vec![
+        Crash::StartPanic,
+        Crash::StartErr,
+        Crash::HandlerPanic(1),
+        Crash::HandlerPanic(2),
+        Crash::HandlerPanic(3),
+        Crash::RunPanic(0),
+        Crash::RunPanic(1),
+        Crash::RunErr(1),
+        Crash::StopPanic,
+        Crash::StopErr,
+    ];
+    if cfg!(feature = "f_deadlock") {
+        crashes.push(Crash::SelfAskDeadlock);
+        crashes.push(Crash::CycleWithPeer);
+    }
+    for crash in crashes {
+        for traffic in 0..(if thorough { 3 } else { 2 }) {
+            let mut ids = Ids(0);
+            let mut v = ActorSpec::plain(3);
+            let p = ActorSpec::plain(3);
+            let q = ActorSpec::plain(3);
+            let mut extra = ActorSpec::plain(2);
+            extra.at_start = false;
+            v.on_start = gated(match crash {
+                Crash::StartPanic => Outcome::Panic(1),
+                Crash::StartErr => Outcome::Err(1),
+                _ => Outcome::Ok,
+            });
+            match crash {
+                Crash::RunPanic(k) | Crash::RunErr(k) => {
+                    let mut runs = Vec::new();
+                    for i in 0..=k {
+                        let out = if i == k {
+                            if matches!(crash, Crash::RunPanic(_)) { Outcome::Panic(2) } else { Outcome::Err(2) }
+                        } else {
+                            Outcome::OkTrue
+                        };
+                        runs.push(HookSpec { entry_yield: false, steps: vec![Step::Yield], out, free: false });
+                    }
+                    v.on_run = runs;
+                }
+                _ => {}
+            }
+            v.on_stop = gated(match crash {
+                Crash::StopPanic => Outcome::Panic(3),
+                Crash::StopErr => Outcome::Err(3),
+                _ => Outcome::Ok,
+            });
+            // messages to V
+            let mut d1 = MsgSpec::m1(ids.next());
+            let mut d2 = MsgSpec::m1(ids.next());
+            let mut d3 = MsgSpec::m1(ids.next());
+            let mut mv1 = MsgSpec::m1(ids.next());
+            let mv2 = MsgSpec::m1(ids.next());
+            match crash {
+                Crash::HandlerPanic(1) => d1 = d1.out(Outcome::Panic(4)),
+                Crash::HandlerPanic(2) => mv1 = mv1.out(Outcome::Panic(4)),
+                Crash::HandlerPanic(3) => d3 = d3.out(Outcome::Panic(4)),
+                Crash::SelfAskDeadlock => d2 = d2.steps(vec![send(SendKind::Ask, REG_BASE, MsgSpec::quick(ids.next()))]),
+                // V asks P while P (in work1) is asking V: a genuine cycle, the detector kills one of the two
+                Crash::CycleWithPeer => d2 = d2.steps(vec![send(SendKind::Ask, REG_BASE + 1, MsgSpec::quick(ids.next()))]),
+                _ => {}
+            }
+            let mq1 = MsgSpec::m1(ids.next());
+            let mq2 = MsgSpec::m1(ids.next());
+            let work1 = MsgSpec::m1(ids.next()).steps(vec![send(SendKind::Ask, REG_BASE, mv1), send(SendKind::Ask, REG_BASE + 2, mq1)]);
+            let work2 = MsgSpec::m1(ids.next()).steps(vec![send(SendKind::Ask, REG_BASE + 2, mq2), send(SendKind::AskTO(10), REG_BASE, mv2)]);
+            let c0 = Program::new(vec![(0, 1)], vec![send(SendKind::Tell, 0, work1), send(SendKind::Tell, 0, work2)]);
+            let mut c1steps = match traffic {
+                0 => vec![send(SendKind::Ask, 0, d1), send(SendKind::Tell, 0, d2), send(SendKind::Ask, 0, d3)],
+                1 => vec![send(SendKind::Tell, 0, d1), send(SendKind::TellTO(10), 0, d2), send(SendKind::AskTO(10), 0, d3)],
+                _ => vec![send(SendKind::Tell, 0, d2), send(SendKind::Ask, 0, d1), send(SendKind::Ask, 0, d3)],
+            };
+            if matches!(crash, Crash::StopPanic | Crash::StopErr) {
+                c1steps.push(Step::Stop(0));
+            }
+            let c1 = Program::new(vec![(0, 0)], c1steps);
+            // afterwards: the survivors still talk to each other, ids still advance, the dead actor refuses
+            let w3 = MsgSpec::m1(ids.next()).steps(vec![send(SendKind::Ask, REG_BASE + 1, MsgSpec::m1(ids.next()))]);
+            let c2 = Program::new(
+                vec![(0, 2), (1, 0)],
+                vec![
+                    Step::Sleep(30),
+                    send(SendKind::Ask, 0, w3),
+                    Step::Spawn { actor: 3, to: 2 },
+                    Step::Ident(2),
+                    send(SendKind::Ask, 2, MsgSpec::m1(ids.next())),
+                    send(SendKind::Tell, 1, MsgSpec::m1(ids.next())),
+                    send(SendKind::Ask, 1, MsgSpec::m1(ids.next())),
+                ],
+            );
+            n += 1;
+            let mut s = scn(format!("c12-{n}-{crash:?}-t{traffic}"), vec![v, p, q, extra], vec![c0, c1, c2], &[]);
+            s.registry = true;
+            out.push(s);
+        }
     }
     out
 }
